@@ -1,7 +1,7 @@
 (* C05 history: statements that document what the code did BEFORE defects found by this check were repaired in /repo.  They are not
    part of the C05 claim (not built by the C05 check); kept compiling for reference. *)
 From Coq Require Import List NArith ZArith Bool.
-From Verif Require Import Str Wire MetaC05Base Gen_C05 MetaC05 MetaC05LitThm.
+From Verif Require Import Str Wire MetaC05Base MetaC05Rne Gen_C05 MetaC05 MetaC05LitThm MetaC05Float MetaC05FltThm.
 Import ListNotations.
 Local Open Scope Z_scope.
 
@@ -17,3 +17,11 @@ Theorem c05_float_operands_in_range_refuted : exists n d,
   old_const_float_operands_in_range n d = false /\ (forall rf, const_float_expr rf n d = rf (n, d)).
 Proof. exact float_operands_in_range_refuted. Qed.
 Print Assumptions c05_float_operands_in_range_refuted.
+
+(* what the code did before the repair of F-FLOAT-OPERAND-ROUNDING (5d24ccd): under the rule "division whenever both operands are below
+   2^1023" a float64 constant could be two ulps off.  Conditional on the regenerated rule, hence vacuous on the repaired tree. *)
+Theorem c05_float64_one_ulp_refuted : float_rule = DivIfBelowLimit -> exists n d,
+  0 < d /\ d <> 1 /\ division_rendered n d = true /\
+  forall rf, exists x, c_eval64 rf n d = Some x /\ ford binary64 x - ford binary64 (rne binary64 n d) = 2.
+Proof. exact float64_one_ulp_refuted. Qed.
+Print Assumptions c05_float64_one_ulp_refuted.
